@@ -20,10 +20,15 @@ Record case := mkcase {
   k_before : snap;
   k_after : snap;
   k_actions : list action;          (* the session as model actions, with the ids the implementation reported *)
-  k_trees : list (list entry);      (* every tree object reachable from git-bug's references afterwards, as stored *)
+  k_trees : list (list entry);      (* every tree object written (or fetched) during the session, as stored *)
   k_fsck : bool;                    (* git fsck --strict --no-dangling is clean afterwards *)
   k_clone : bool;                   (* git clone --mirror with transfer.fsckObjects + gc + fsck: clean, every git-bug reference arrived *)
-  k_push : bool                     (* git push of the git-bug namespaces into a bare repository with receive.fsckObjects: accepted *)
+  k_push : bool;                    (* git push of the git-bug namespaces into a bare repository with receive.fsckObjects: accepted *)
+  k_extras : list (list (list N) * list entry);  (* per commit of several staged operations: the files of each operation,
+                                       the tree stored as "extra" ([] = none) *)
+  k_commits : list (str * str);     (* the text after "author " and after "committer " of every commit written or fetched *)
+  k_identcfg : list (str * str);    (* user.*, author.*, committer.* of the host's configuration: key, value *)
+  k_peercfg : list (str * str)      (* the same for the repository of the second user *)
 }.
 
 Definition loc_of (name : str) : list str := match resolve name with Some l => l | None => [name] end.
@@ -46,8 +51,10 @@ Definition fview_eqb (a b : fview) : bool :=
 
 (* ---- the property on the implementation's observations ---- *)
 Definition foreign_same (c : case) : bool := fview_eqb (foreign (repo_of (k_before c))) (foreign (repo_of (k_after c))).
+(* every author / committer line is one git fsck accepts *)
+Definition idents_ok (c : case) : bool := forallb (fun p => fsck_identb (fst p) && fsck_identb (snd p)) (k_commits c).
 Definition C15_ok (c : case) : bool :=
-  foreign_same c && forallb git_tree_okb (k_trees c) && k_fsck c && k_clone c && k_push c.
+  foreign_same c && forallb git_tree_okb (k_trees c) && idents_ok c && k_fsck c && k_clone c && k_push c.
 
 Fixpoint index_filter {A} (f : A -> bool) (i : nat) (l : list A) : list nat :=
   match l with [] => [] | x :: t => if f x then index_filter f (S i) t else i :: index_filter f (S i) t end.
@@ -97,13 +104,24 @@ Definition rest_same (c : case) : bool :=
 (* StoreTree: the stored order of every tree is the model's order of the same entries *)
 Definition trees_as_model (c : case) : bool := forallb (fun es => list_eqb entry_eqb (store_tree es) es) (k_trees c).
 
+(* makeExtraTree: the stored "extra" tree of a commit of several operations is the model's tree of their files *)
+Definition extras_as_model (c : case) : bool :=
+  forallb (fun x => list_eqb entry_eqb (store_tree (make_extra (fst x))) (snd x)) (k_extras c).
+
+(* StoreSignedCommit: every commit carries the names and addresses of the [author] / [committer] sections of the
+   configuration of the repository that wrote it (the host's, or the second user's for what was fetched) *)
+Definition commit_as_model (cfg : list (str * str)) (p : str * str) : bool :=
+  prefixb N.eqb (author_prefix cfg) (fst p) && prefixb N.eqb (committer_prefix cfg) (snd p).
+Definition idents_as_model (c : case) : bool :=
+  forallb (fun p => commit_as_model (k_identcfg c) p || commit_as_model (k_peercfg c) p) (k_commits c).
+
 Definition agrees (c : case) : bool :=
   match untargeted_refs c, untargeted_cfg c, untargeted_files c with
-  | [], [], [] => rest_same c && trees_as_model c
+  | [], [], [] => rest_same c && trees_as_model c && extras_as_model c && idents_as_model c
   | _, _, _ => false
   end.
 Definition mismatches (cs : list case) : list nat := index_filter agrees 0 cs.
 
 Definition explain (c : case) :=
-  (untargeted_refs c, untargeted_cfg c, untargeted_files c, (rest_same c, trees_as_model c),
-   (foreign_same c, forallb git_tree_okb (k_trees c), (k_fsck c, k_clone c, k_push c))).
+  (untargeted_refs c, untargeted_cfg c, untargeted_files c, (rest_same c, trees_as_model c, extras_as_model c, idents_as_model c),
+   (foreign_same c, forallb git_tree_okb (k_trees c), idents_ok c, (k_fsck c, k_clone c, k_push c))).
